@@ -39,8 +39,12 @@ func runC16(c *an.Ctx) {
 	ok = c.Need(renew, "C16.e", "sync.(*Syncer).renewTail") && ok
 	ok = c.Need(move, "C16.d", "sync.(*Syncer).moveTail") && ok
 	ok = c.Need(doSync, "C16.d", "sync.(*Syncer).doSync") && ok
-	ok = c.Need(estimate, "C16.c", "sync.(*Syncer).estimateTailHeight") && ok
 	ok = c.Need(tailHeight, "C16.c", "sync.(*Syncer).tailHeight") && ok
+	if estimate == nil || estimate.Blocks == nil {
+		// the estimation may have been inlined into tailHeight: its obligations are then
+		// evaluated on tailHeight's own returns (below)
+		estimate = nil
+	}
 	if !ok {
 		return
 	}
@@ -78,19 +82,21 @@ func runC16(c *an.Ctx) {
 	c.Min("C16.b", "unsigned subtractions in the tail functions", nSub, 3)
 	checkArith(c, "C16.b", fns, map[string]bool{"conv": true, "index": true, "slice": true, "makesize": true}, nil, []arithException{
 		{Func: "sync.(*Syncer).estimateTailHeight", Match: "trustingPeriod", Reason: "a negative trustingPeriod yields a quotient that wraps to ≥ 2^63; the next guard (headersToRetain >= head.Height()) maps it to tail 1: no crash, no wrapped subtraction"},
+		{Func: "sync.(*Syncer).tailHeight", Match: "trustingPeriod", Reason: "the same conversion when the estimation is written inside tailHeight: the wrapped quotient (≥ 2^63) is mapped to tail 1 by the next guard"},
 		{Func: "sync.(*Syncer).findTailHeight", Match: "PruningWindow /", Reason: "a negative PruningWindow yields a quotient that wraps to ≥ 2^63; it only feeds the guarded subtraction checked under C16.b (usub)"},
 	})
 
 	// --- C16.c: results of the estimation function are >= 1
-	et, ef := c.T(estimate), c.F(estimate)
 	nRet := 0
-	for _, r := range ef.Returns() {
-		nRet++
-		v := r.Results[0]
-		okR := ef.ProveGE(r.Block(), et.Affine(v), an.Const(1), 0)
-		c.Check(okR, "C16.c", "estimate>=1:"+et.Of(v), "every estimated tail height is proven ≥ 1", estimate, r, "returns "+et.Of(v), ef.AtInstr(r))
+	if estimate != nil {
+		et, ef := c.T(estimate), c.F(estimate)
+		for _, r := range ef.Returns() {
+			nRet++
+			v := r.Results[0]
+			okR := ef.ProveGE(r.Block(), et.Affine(v), an.Const(1), 0)
+			c.Check(okR, "C16.c", "estimate>=1:"+et.Of(v), "every estimated tail height is proven ≥ 1", estimate, r, "returns "+et.Of(v), ef.AtInstr(r))
+		}
 	}
-	c.Min("C16.c", "returns of the estimation function", nRet, 2)
 	tt, tf := c.T(tailHeight), c.F(tailHeight)
 	for _, r := range tf.Returns() {
 		if tt.ErrShape(errResult(r)) != "nil" {
@@ -98,14 +104,26 @@ func runC16(c *an.Ctx) {
 		}
 		v := r.Results[0]
 		term := tt.Of(v)
+		fromCall := false
+		if ex, isEx := tt.Deref(v).(*ssa.Extract); isEx {
+			_, fromCall = ex.Tuple.(*ssa.Call)
+		}
+		if cl, isCall := tt.Deref(v).(*ssa.Call); isCall && an.StaticCallee(&cl.Call) != nil {
+			fromCall = true
+		}
 		switch {
 		case term == "p0.Params.SyncFromHeight":
 			c.Check(tf.ProveGE(r.Block(), tt.Affine(v), an.Const(1), 0), "C16.c", "explicit-height>=1", "a configured SyncFromHeight is used only when > 0", tailHeight, r, "", tf.AtInstr(r))
-		default:
+		case fromCall:
 			// result of estimateTailHeight (checked above) or of findTailHeight (heights of stored headers)
 			c.Ok("C16.c", "tailHeight-result:"+term, "tailHeight returns a configured, estimated or found height", tailHeight, r, "returns "+term, tf.AtInstr(r))
+		default:
+			// an estimate computed in place (the estimation inlined into tailHeight)
+			nRet++
+			c.Check(tf.ProveGE(r.Block(), tt.Affine(v), an.Const(1), 0), "C16.c", "estimate>=1:"+term, "every estimated tail height is proven ≥ 1", tailHeight, r, "returns "+term, tf.AtInstr(r))
 		}
 	}
+	c.Min("C16.c", "returns of the estimation", nRet, 2)
 
 	// the window-based search: the estimate it starts from lies within the chain (≤ head.Height(): a
 	// height above the head cannot be fetched, tail renewal would fail on every Head()/Start), and the
